@@ -162,6 +162,16 @@ def run_case(case, ctx):
 
 
 def shard_main(ctx):
+    if ctx.shard in (7, 8):
+        # a window whose inlines start beyond trace 65 536 of a survey of 66 306 traces, every run (vp/big.py)
+        from .. import big
+        case = {"src": big.REGULAR, "window": [254, 258, 3, 12] if ctx.shard == 7 else [256, 258, 0, 257], "reduce": ctx.shard == 8,
+                "mode": "heuristic" if ctx.shard == 7 else "thorough", "setting": {"rate": 8, "blockshape": [4, 4, 256]}, "via": "api", "wtype": "int"}
+        try:
+            ctx.evaluate(case, run_case)
+        except Violation as v:
+            ctx.failures.append({"kind": v.kind, "detail": v.detail, "case": case})
+            return
     ctx.explore("window", cases(), run_case, ctx.n(50, 1000))
 
 
